@@ -2,6 +2,7 @@ CONSTANTS NP = 3
           NT = 2
           NF = 2
           NA = 2
+          NC = 1
           Light = TRUE
 INIT Init
 NEXT Eval
@@ -9,6 +10,8 @@ INVARIANT OnJointIndex
 INVARIANT ValuesIntact
 INVARIANT AsOfJoin
 INVARIANT ColumnsAligned
+INVARIANT ColumnPolicy
+INVARIANT DictOrderKept
 INVARIANT StructureKept
 INVARIANT Idempotent
 INVARIANT PolicyOrder
